@@ -19,6 +19,7 @@ fn q(s: &str) -> String {
 
 fn gl(l: &GLit) -> String {
   match l {
+    GLit::Raw(_, v) => gl(v),
     GLit::Uint(n) => format!("u:{}", n),
     GLit::Nint(n) => format!("i:{}", n),
     GLit::Float(f) => format!("f:{:016x}", f.to_bits()),
